@@ -62,6 +62,8 @@ def failOutcome (kind : String) (a b : Int) : Outcome :=
   | "qserial" => match nz [a, b] with | [] => .ok | c :: _ => .depsFailed [c]
   | "qerrdep" => .depsFailed [1]
   | "qpanicdep" => .depsFailed [1]
+  -- sh.Exec whose output writer fails although the command exits 0: a plain error, not an exit status
+  | "shwriter" => .err none
   | _ => .ok
 
 def outcomeOf (c : Call) : Outcome :=
